@@ -8,6 +8,7 @@ mod evidence;
 mod exec;
 mod fine;
 mod gen;
+mod ioworld;
 mod lending;
 mod lifeworld;
 mod model;
